@@ -206,6 +206,7 @@ pub fn inject_case<S: HB>(cfg: &HistCfg, build: &[Op], op: &Op, class: usize, n:
     let mut cur = 0usize; let mut held = Held::default();
     let pre = observe(&caches[0], &obs_full(universe, 64));
     let mut viols: Vec<Viol> = Vec::new();
+    let mut used_second = false;
     let mut oplog: Vec<Op> = build.to_vec();
     oplog.push(op.clone());
     // a second fault, independent of the first: the a-th allocation made inside the operation is refused (n's upper half)
@@ -255,6 +256,7 @@ pub fn inject_case<S: HB>(cfg: &HistCfg, build: &[Op], op: &Op, class: usize, n:
         // is legal further use and must neither panic nor break what C16 states (structure, ledger, recorded sum). This is
         // the history of finding D8: the pre-fix library derived the new record from the stale one and underflowed.
         let frozen: Option<u32> = if matches!(op, Op::Mutate { .. }) { op.target_id() } else { None };
+
         let mut ob = observe(&caches[cur], &light(64));
         for fi in 0..steps {
             let fop = match fixed_further { Some(f) => f[fi].clone(), None => match frozen { Some(fz) if fi == 0 && ob.has(fz) && g.rng.chance(1, 2) => {
@@ -268,8 +270,29 @@ pub fn inject_case<S: HB>(cfg: &HistCfg, build: &[Op], op: &Op, class: usize, n:
             if remutate { out.stats.count("c16_remutate_after_panicked_mutate"); }
             if matches!(&fop, Op::Switch { idx } | Op::DropCache { idx } if *idx >= caches.len()) { continue; }
             oplog.push(fop.clone());
+            // now and then a SECOND fault: one of the later operations has a panic injected as well (first or second
+            // callback of a random class); whatever C16 states must hold after it just the same, and the use goes on
+            let second: Option<(usize, u64)> = if fixed_further.is_none() && g.rng.chance(1, 6) { Some((g.rng.usize_below(NCLASS), 1 + g.rng.below(2))) } else { None };
+            if let Some((c2, n2)) = second { arm(c2, n2); }
             let fo = apply(&mut caches, &mut cur, &fop, &mut held, base);
             disarm(); held.clear();
+            let second_fired = second.is_some() && matches!(&fo.panic, Some(m) if m.contains(INJECTED));
+            if second_fired {
+                used_second = true;
+                out.stats.count("c16_second_panic_in_further_use");
+                if caches.is_empty() { break; }
+                if cur >= caches.len() { cur = 0; }
+                let mut bad = false;
+                for (i, c) in caches.iter().enumerate() {
+                    let o2 = observe(c, &light(c.len().min(4096)));
+                    post_panic_checks(&format!("{}, then a second panic ({} #{}) in {} (cache #{})", what, CLASS_NAMES[second.unwrap().0], second.unwrap().1, fop.to_text(), i), &o2, None, second.unwrap().0, &fop, &mut viols);
+                    bad |= !o2.g1.is_empty();
+                    if i == cur { ob = o2; }
+                }
+                for e in ledger_take_errors() { viols.push(Viol { prop: "C16", sig: "double-drop".into(), msg: format!("{}, then a second panic in {}: {}", what, fop.to_text(), e) }); }
+                if bad || !viols.is_empty() { broken = bad; break; }
+                continue;
+            }
             if let Some(m) = &fo.panic {
                 let documented = matches!(&fop, Op::Reserve { n } if *n > (usize::MAX >> 4));
                 if !documented { viols.push(Viol { prop: "C16", sig: "further-use-panic".into(), msg: format!("{}: later {} panicked: {}", what, fop.to_text(), m) }); break; }
@@ -304,7 +327,12 @@ pub fn inject_case<S: HB>(cfg: &HistCfg, build: &[Op], op: &Op, class: usize, n:
         for e in ledger_take_errors() { viols.push(Viol { prop: "C16", sig: "double-drop".into(), msg: format!("{}, dropping the cache: {}", what, e) }); }
         out.stats.count("c16_dropped_after");
     }
-    if !viols.is_empty() { out.record_ex(&viols, cfg, &oplog, build.len(), Some((class, n_enc))); }
+    if !viols.is_empty() {
+        let before = out.failures.len();
+        out.record_ex(&viols, cfg, &oplog, build.len(), Some((class, n_enc)));
+        // a case with a second fault is replayed by re-running the shard (the op list alone does not carry the second fault)
+        if used_second { for f in out.failures.iter_mut().skip(before) { f.rerun = true; } }
+    }
     if out.stats.samples.get("C16").map(|v| v.len()).unwrap_or(0) < 5 && (n + class as u64) % 7 == 0 { out.stats.sample("C16", format!("{} | state: {} | inject {} #{} into {}", cfg.to_text(), build.iter().map(|o| o.to_text()).collect::<Vec<_>>().join("; "), CLASS_NAMES[class], n, op.to_text())); }
     ledger_reset();
     true
